@@ -640,8 +640,9 @@ def late_placement_specs():
         links = [[0, 1, "SS"], [1, 2, "FS"], [3, 4, "FS"]]
         comps = [{"name": "HULL", "tasks": [0, 1, 2]}, {"name": "TOOL", "tasks": [3, 4]}]
         wps = [{"name": "WPA", "cap": 1.0, "targets": [1, 2, 3], "facilities": [{"name": "FA", "skills": {"T1": 1.0, "T2": 1.0, "T3": 1.0}, "cost": 1.0}]}]
-        sk = {"T0": 1.0, "T1": 1.0, "T3": 1.0, "T4": 1.0}
-        teams = [{"name": "TM0", "targets": [0, 1, 3, 4], "workers": [{"name": "W%d" % i, "skills": dict(sk), "fskills": {"FA": 1.0}, "cost": 1.0} for i in range(3)]}]
+        sk = {"T1": 1.0, "T3": 1.0, "T4": 1.0}
+        teams = [{"name": "TM0", "targets": [0, 1, 3, 4], "workers": [{"name": "W0", "skills": {"T0": 1.0}, "cost": 1.0}] +
+                  [{"name": "W%d" % i, "skills": dict(sk), "fskills": {"FA": 1.0}, "cost": 1.0} for i in (1, 2)]}]  # one designer: T0 really takes w0 steps
         out.append({"tasks": tasks, "links": links, "components": comps, "workplaces": wps, "teams": teams, "label": "late-placement:%s" % w0})
     return out
 
